@@ -146,12 +146,60 @@ def model_outputs(ctx, records, chunks=8):
     return [o for part in outs for o in part]
 
 
+def _refs(v):
+    if isinstance(v, dict):
+        if "r" in v:
+            return [v["r"]]
+        if "l" in v:
+            return [r for x in v["l"] for r in _refs(x)]
+        if "d" in v:
+            return [r for _, x in v["d"] for r in _refs(x)]
+    return []
+
+
+def canon_log(log, attrs=None):
+    """a call log (events `new` / `init` / `post` + names of the parameters already set / `exec` / `body`, objects named by
+    their configuration) up to the order C13 leaves free.  The property (Properties/C13.lean) fixes, per object, the
+    sequence of what happens to it (created once, `__init__`, its parameters, `__post_init__` once with all of them set),
+    that an object exists when a `__post_init__` receives it in a parameter, that everything is built before anything is
+    executed, and the sequence of executions (pre-tasks in first-occurrence order, init tasks in the order given, body
+    last); it fixes no order between the construction events of DIFFERENT objects (e.g. all `__post_init__` calls moved
+    after the last assignment is the same behaviour).  Kept exactly: the per-object sequences, the execution sequence;
+    kept as facts: `built_before_executions`, `post_init_sees_existing_objects`."""
+    objects, execs, late_build = {}, [], False
+    created_at, post_at = {}, []
+    for i, ev in enumerate(log):
+        kind, k = ev[0], ev[1]
+        if kind in ("exec", "body"):
+            execs.append(list(ev))
+            continue
+        if execs:
+            late_build = True
+        objects.setdefault(json.dumps(k), []).append([kind] + list(ev[2:]))
+        if kind == "new":
+            created_at.setdefault(json.dumps(k), i)
+        elif kind == "post":
+            post_at.append((i, k))
+    out = {"objects": sorted([k, v] for k, v in objects.items()), "executions": execs, "built_before_executions": not late_build}
+    if attrs is not None and created_at:
+        held = {json.dumps(k): [r for _, v in fields for r in _refs(v)] for k, fields in attrs}
+        out["post_init_sees_existing_objects"] = all(
+            created_at.get(json.dumps(r), len(log)) < i for i, k in post_at for r in held.get(json.dumps(k), []))
+    return out
+
+
 def norm(x):
-    """order-insensitive where the real code iterates over a set (store contents)"""
+    """order-insensitive where the real code iterates over a set (store contents) and where the property leaves the
+    order free (`canon_log`; the attribute table is a table: sorted by object)"""
     if isinstance(x, dict) and "store" in x:
         x = dict(x)
         x["store"] = sorted(x["store"])
         x.pop("pre", None)
+    if isinstance(x, dict) and isinstance(x.get("log"), list):
+        x = dict(x)
+        x["log"] = canon_log(x["log"], x.get("attrs"))
+        if isinstance(x.get("attrs"), list):
+            x["attrs"] = sorted(x["attrs"], key=lambda a: json.dumps(a[0]))
     return x
 
 
